@@ -1257,19 +1257,18 @@ class VM:
             return UNDEFINED
 
         if isinstance(obj, JSObject):
-            # Check for getter first
-            getter = obj.get_getter(key_str)
-            if getter is not None:
-                return self._invoke_getter(getter, obj)
-            # Check own property
-            if obj.has(key_str):
-                return obj.get(key_str)
-            # Check prototype chain
-            proto = getattr(obj, "_prototype", None)
-            while proto is not None:
-                if isinstance(proto, JSObject) and proto.has(key_str):
-                    return proto.get(key_str)
-                proto = getattr(proto, "_prototype", None)
+            # The object's own property first, then each object of the
+            # prototype chain in turn; an accessor, wherever it is found,
+            # runs with the object the property was read from as `this`
+            holder = obj
+            while isinstance(holder, JSObject):
+                if key_str in holder._properties:
+                    return holder._properties[key_str]
+                if key_str in holder._getters:
+                    return self._invoke_getter(holder._getters[key_str], obj)
+                if key_str in holder._setters:
+                    return UNDEFINED  # accessor property without a getter
+                holder = holder._prototype
             # Built-in Object methods as fallback
             if key_str in ("toString", "hasOwnProperty"):
                 return self._make_object_method(obj, key_str)
@@ -2569,12 +2568,20 @@ class VM:
                 pass  # Not a number, allow as string property
             obj.set(key_str, value)
         elif isinstance(obj, JSObject):
-            # Check for setter
-            setter = obj.get_setter(key_str)
-            if setter is not None:
-                self._invoke_setter(setter, obj, value)
-            else:
-                obj.set(key_str, value)
+            # Walk the chain like a read does: the nearest property decides.
+            # A setter runs with obj as `this`; a data property (own or
+            # inherited) or no property at all means: write on obj itself
+            holder = obj
+            while isinstance(holder, JSObject):
+                if key_str in holder._properties:
+                    break
+                if key_str in holder._setters:
+                    self._invoke_setter(holder._setters[key_str], obj, value)
+                    return
+                if key_str in holder._getters:
+                    break
+                holder = holder._prototype
+            obj.set(key_str, value)
 
     def _delete_property(self, obj: JSValue, key: JSValue) -> bool:
         """Delete property from object."""
